@@ -41,7 +41,7 @@ class LED:
         self.r = r
         self.g = g
         self.b = b
-        if intensity:
+        if intensity is not None:
             self.intensity = intensity
 
 
